@@ -75,6 +75,8 @@ func main() {
 			tier = t
 		}
 		os.Exit(runCheck(os.Args[2], tier))
+	case "replay":
+		os.Exit(runReplay(os.Args[2]))
 	case "run":
 		os.Exit(runDev(os.Args[2:]))
 	case "selftest":
@@ -294,6 +296,81 @@ func runNative(cases []*replayCase, sh *Shared, pathMap map[string]string, tmp s
 	return nil
 }
 
+// runReplay re-runs a recorded counterexample (replays/<id>/<harness>__<label>.json) against the real build of
+// /repo's current tree: the harness is compiled natively (go test -overlay) and driven by the recorded script.
+// Exit 1 and a "REPRODUCED" line when the recorded violation shows again, exit 0 when it does not (e.g. after
+// the defect was repaired), exit 2 when the replay could not be run or is not natively replayable.
+func runReplay(path string) int {
+	b, err := os.ReadFile(path)
+	if err != nil {
+		fmt.Fprintln(os.Stderr, "replay:", err)
+		return 2
+	}
+	var r struct {
+		Property string                   `json:"property"`
+		Harness  string                   `json:"harness"`
+		Pkg      string                   `json:"pkg"`
+		Label    string                   `json:"label"`
+		Kind     string                   `json:"kind"`
+		Script   []map[string]interface{} `json:"script"`
+		Params   map[string]int           `json:"params"`
+	}
+	if err := json.Unmarshal(b, &r); err != nil {
+		fmt.Fprintln(os.Stderr, "replay:", err)
+		return 2
+	}
+	if r.Kind == "lock" {
+		fmt.Println("NOT-REPLAYABLE: a lock-discipline finding is a fact about an explored path (lock tracker), not a native failure")
+		return 2
+	}
+	spec, err := loadSpec(r.Property)
+	if err != nil {
+		fmt.Fprintln(os.Stderr, "replay:", err)
+		return 2
+	}
+	os.MkdirAll(filepath.Join(verifRoot, ".scratch"), 0o755)
+	tmp, err := os.MkdirTemp(filepath.Join(verifRoot, ".scratch"), "replay-")
+	if err != nil {
+		fmt.Fprintln(os.Stderr, "replay:", err)
+		return 2
+	}
+	defer os.RemoveAll(tmp)
+	_, pathMap, err := buildOverlay(spec.Pkgs, tmp)
+	if err != nil {
+		fmt.Fprintln(os.Stderr, "replay:", err)
+		return 2
+	}
+	pd := r.Pkg
+	if pd == "" {
+		pd = spec.Pkgs[0]
+	}
+	script := make([]interface{}, len(r.Script))
+	for i, e := range r.Script {
+		script[i] = e
+	}
+	one := []*replayCase{{pkgdir: pd, harness: r.Harness, script: script, params: r.Params}}
+	nativeRaceFlag = r.Kind == "race"
+	if err := runNative(one, nil, pathMap, tmp, map[string][]string{pd: {r.Harness}}); err != nil {
+		fmt.Fprintln(os.Stderr, "replay:", err)
+		return 2
+	}
+	o := one[0].out
+	fmt.Printf("native replay of %s/%s: failed=%q panic=%q timeout=%v desync=%q\n", r.Harness, r.Label, o.Failed, o.Panic, o.Timeout, o.Desync)
+	switch {
+	case r.Kind == "assert" && o.Failed == r.Label, r.Kind == "panic" && o.Panic != "", r.Kind == "nonterm" && o.Timeout:
+		fmt.Printf("REPRODUCED property=%s %s/%s\n", r.Property, r.Harness, r.Label)
+		return 1
+	case r.Kind == "race" && strings.Contains(nativeLastOutput, "DATA RACE"):
+		fmt.Printf("REPRODUCED property=%s %s/%s (Go race detector)\n", r.Property, r.Harness, r.Label)
+		return 1
+	case strings.Contains(o.Desync, "engine-only"):
+		fmt.Println("NOT-REPLAYABLE: the counterexample uses an engine-only facility (" + o.Desync + ")")
+		return 2
+	}
+	fmt.Println("NOT-REPRODUCED on the current tree (schedule-dependent counterexamples may need several attempts)")
+	return 0
+}
+
 // nativeRaceFlag makes runNative build and run the replay under the Go race detector; nativeLastOutput keeps
 // the test output of the last native run (the detector's reports are read from it).
 var nativeRaceFlag bool
@@ -376,6 +453,18 @@ func ninstr(fn *ssa.Function) int {
 		n += len(b.Instrs)
 	}
 	return n
+}
+
+func loadSpec(id string) (*CheckSpec, error) {
+	specData, err := os.ReadFile(filepath.Join(verifRoot, "checks", id+".json"))
+	if err != nil {
+		return nil, err
+	}
+	var spec CheckSpec
+	if err := json.Unmarshal(specData, &spec); err != nil {
+		return nil, err
+	}
+	return &spec, nil
 }
 
 func runCheck(id, tier string) int {
